@@ -30,11 +30,12 @@ TInit == /\ TLCSet(1, {})
          /\ kcReg = {} /\ kcSec = {} /\ kcScr = FALSE /\ npass = 0 /\ nouts = T.nout
 
 PassOf(e) == [mech |-> e.mech, K |-> ToSet(e.K), I |-> ToSet(e.I), ht |-> e.ht, scr |-> e.scr,
-              reg |-> ToSet(e.reg), sec |-> ToSet(e.sec), fresh |-> e.fresh, ic |-> e.ic]
+              reg |-> ToSet(e.reg), sec |-> ToSet(e.sec), fresh |-> e.fresh, ic |-> e.ic,
+              sc |-> e.sc, via |-> e.via]
 
 \* registering paths / adding secrets / adding scripts to the long-lived keychain
 TKcAdd == /\ l <= Len(Ev) /\ Cur.mech = "kc_add"
-          /\ KcAdd(ToSet(Cur.reg), ToSet(Cur.sec), Cur.scr)
+          /\ KcAdd(ToSet(Cur.reg), ToSet(Cur.sec), Cur.scr) /\ Cur.via \in RegVias /\ Cur.sc \in ScriptContainers
           /\ Cur.frame = fd /\ Cur.changed = <<>>
           /\ \A i \in Ins : Pairs(Cur.signed[i]) = signed[i] /\ Cur.valid[i] = valid[i]
           /\ Cur.bad = BadNow /\ ~Cur.raised /\ NotAccumulated(Cur.nsig)
